@@ -26,8 +26,8 @@ func marked(id string) func(Case, kit.Failure) bool {
 }
 
 var findings = []kit.Finding[Case]{
-	{ID: kfColStruct, Clause: "C09.G", Trigger: marked(kfColStruct),
-		Desc: "InsertColumn/AppendColumn/DeleteColumn(s) on a table that is not rectangular (a horizontally merged cell somewhere) index the physical cells of every row with the column number of row 0: slice-bounds panic, rows that no longer span the grid, grid and rows out of step"},
+	{ID: kfColStruct, Clause: "C09.G3", Trigger: marked(kfColStruct),
+		Desc: "DeleteColumn/DeleteColumns (and, for vMerge pairing only, InsertColumn/AppendColumn) on a table with a horizontally merged cell remove/insert the physical cell with that index in every row: a row loses a spanned cell (or its only cell) while the grid loses one column, vertical-merge partners end up at different grid columns"},
 	{ID: kfInsRow, Clause: "C09.G3.span", Trigger: marked(kfInsRow),
 		Desc: "InsertRow/AppendRow build the new row from the physical cells of row 0: when row 0 contains a horizontally merged cell the new row is short (spans fewer columns than the grid)"},
 	{ID: kfRowVM, Clause: "C09.G3.vmerge", Trigger: marked(kfRowVM),
